@@ -1,6 +1,7 @@
 CONSTANTS
   Sits <- AllSits
   PairsFor <- PairsQ
+  PairFields <- FieldsQ
   ExtraSets <- Extras
 INIT Init
 NEXT Next
